@@ -24,7 +24,7 @@ pub(crate) fn encode_max<D: BinaryBuf>(buf: &mut D, is_negative: bool) {
     let bit_width = buf.storage_width_bits();
     let max_digits = precision_digits(bit_width);
 
-    let exp = <D::Exponent>::emax(buf).lower(max_digits);
+    let exp = <D::Exponent>::emax(buf).lower(max_digits - 1);
 
     let msd = encode_significand_trailing_digits_repeat(buf, b'9');
 
